@@ -78,7 +78,9 @@ def setupLoop (h : Nat) : Nat → Nat → (List α × List Nat × Nat × St α) 
 /-- `treeHashSetup` from index 0: returns the traversal state and the root. -/
 def treeHashSetup (h : Nat) : St α × α :=
   let s0 := newState o h
-  let s0 := { s0 with treeHash := s0.treeHash.mapIdx (fun i t => { t with h := i, completed := 1, stackUsage := 0 }) }
+  -- `for i < h-k { treeHash[i].h = i; completed = 1; stackUsage = 0 }` on the freshly allocated instances
+  let s0 := (List.range (h - K)).foldl (fun s i =>
+    { s with treeHash := modTH o s.treeHash i (fun t => { t with h := i, completed := 1, stackUsage := 0 }) }) s0
   let (stack, _, _, s) := setupLoop o h (2^h) 0 (List.replicate (h+1) o.zero, List.replicate (h+1) 0, 0, s0)
   (s, stack.getD 0 o.zero)
 
